@@ -38,6 +38,10 @@ def explore(res, cs, tier):
     variants = [(False, False), ("all", False)]
     if len(cs) <= 1:
         variants += [(False, True), ("all", True)]
+    if len(cs) == 2:
+        # the base class already has the first candidate (and an instance of it has met the
+        # event), the subclass adds the second candidate for the same event and state
+        variants += [(False, "partial")]
     for asyn, inherited in variants:
         m, names = mk_machine(cs, asyn)
         if inherited:
@@ -45,7 +49,7 @@ def explore(res, cs, tier):
             # inherited states with the event named through the `event=` parameter
             k = len(cs)
             m = M(states=m.states, trans=m.trans[k:] + m.trans[:k], provided=m.provided)
-            built = build(m, split=len(m.trans) - k)
+            built = build(m, split=len(m.trans) - (1 if inherited == "partial" else k))
         else:
             built = build(m)
         declared = m.all_events()
@@ -95,7 +99,9 @@ def explore(res, cs, tier):
                                     {"category": _cat(r), "style": style, "engine": cfg.engine},
                                     {"machine": m.to_json(), "cfg": list(cfg), "style": style,
                                      "state": st, "event": ev, "vals": tv,
-                                     "split": (len(m.trans) - len(cs)) if inherited else None},
+                                     "split": (len(m.trans) - (1 if inherited == "partial"
+                                                               else len(cs)))
+                                     if inherited else None},
                                     f"[{style}] {r}")
                                 np = Pair(built, cfg)
                                 np.impl.mixin = (style == "mixin")
